@@ -296,6 +296,49 @@ def check_elements(eng: NullFlow, prog: Program, lst, st: State, cname: str, che
                     eng.entry = entry
 
 
+def completed_from_document(prog: Program, marker: str):
+    """RunningOrder.completed (and MosCollection.completed) evaluated on objects *freshly constructed* over a document
+    with / without the completion marker: the answer must come from the document, not from state kept on an object."""
+    from .domains import ClsV, ElemE, ListE, NumV, ObjE, StrV, TupleV, Unknown
+    from .domains import S as _S
+    out = {}
+    for present in (True, False):
+        eng = NullFlow(prog, f'completed (marker {"present" if present else "absent"})')
+        st = base_state(eng)
+        root = new_root(st, 'RO', 'RO')
+        if present:
+            sym = st.new(ElemE('RO', marker, root.sym, True, ('first', _S(root.sym), marker), schema=False))
+            st.first[(root.sym, marker)] = sym
+        else:
+            st.first[(root.sym, marker)] = 'ABSENT'
+        vals, cvals = set(), set()
+        ro_cls = prog.cls('RunningOrder')
+        for ro, s in make_object(eng, ro_cls, root, st):
+            if isinstance(ro, Raise):
+                vals.add('raise ' + ro.exc.cls)
+                continue
+            req = dict(s.mon.get('sym:rootreq') or {})
+            req[root.sym] = (base_tag_literal(eng, ro_cls),)
+            s.mon['sym:rootreq'] = req
+            for v, s2 in eng.getattr_(ro, 'completed', s.copy(), None):
+                vals.add(('raise ' + v.exc.cls) if isinstance(v, Raise) else eng.describe(v, s2))
+            # the collection's view: a collection object holding this running order and one reader of every kind
+            coll = prog.cls('MosCollection')
+            fi = coll.find('completed')
+            if fi is not None:
+                readers = []
+                for cname in ('RunningOrderEnd', 'StorySend'):
+                    rs = s.new(ObjE(prog.cls('MosReader').qualname, tuple(sorted({'_message_id': NumV(), '_ro_id': StrV(('ro id',)), '_mos_type': ClsV(prog.cls(cname).qualname),
+                                                                                     '_restore_fn': Unknown('restore'), '_restore_args': TupleV(())}.items()))))
+                    readers.append(Ref('obj', rs))
+                lst = s.new(ListE('lit', len(readers), len(readers), items=tuple(readers)))
+                cs_ = s.new(ObjE(coll.qualname, tuple(sorted({'_mos_readers': Ref('list', lst), '_ro': ro}.items()))))
+                for v, s2 in eng.getattr_(Ref('obj', cs_), 'completed', s.copy(), None):
+                    cvals.add(('raise ' + v.exc.cls) if isinstance(v, Raise) else eng.describe(v, s2))
+        out[present] = (sorted(vals), sorted(cvals))
+    return out
+
+
 # ------------------------------------------------------------ note table
 NOTE_REPRESENTATIVES = [
     # (text, expected script entry or None)   -- specification: kept iff non-blank and not wrapped in () or <>; value stripped
